@@ -116,6 +116,20 @@ def build_model():
     return True
 
 
+def regen_facts():
+    """tie, way 1: re-extract the table-shaped source fragments into Generated.v"""
+    rc, out = sh([sys.executable, os.path.join(VERIF, 'tools', 'srcfacts.py')], check=True)
+    m = re.search(r'stale:(.*)', out)
+    return [x for x in (m.group(1).split(',') if m else []) if x]
+
+
+def coqchk(pid, timeout=3000):
+    """independent re-check of the compiled property file and everything it depends on"""
+    rc, out = sh(['coqchk', '-silent', '-o', '-Q', 'theories', 'AG', 'AG.Properties.' + pid], cwd=COQ,
+                 timeout=timeout, check=False)
+    return rc, out
+
+
 # ------------------------------------------------------- proof obligations
 FORBIDDEN = re.compile(r'\b(Admitted|admit|Axiom|Axioms|Parameter|Parameters|Conjecture|Conjectures|'
                        r'Hypothesis|Hypotheses|Variable|Variables)\b|Unset\s+Guard|bypass_check|'
